@@ -224,13 +224,17 @@ func c02Build(seed int64, grammarBias bool) *c02Built {
 		f.CgoPreamble("#include <x.h>")
 		d = append(d, "CgoPreamble")
 	}
-	if r.Intn(6) == 0 {
-		f.HeaderComment([]string{"hdr", "multi\nline", "*/ x"}[r.Intn(3)])
-		d = append(d, "HeaderComment")
+	if r.Intn(5) == 0 {
+		for i, n := 0, 1+r.Intn(3); i < n; i++ {
+			f.HeaderComment([]string{"hdr", "multi\nline", "*/ x", "", "x := 1"}[r.Intn(5)])
+		}
+		d = append(d, "HeaderComment(s)")
 	}
-	if r.Intn(6) == 0 {
-		f.PackageComment([]string{"pkg doc", "", "a\nb"}[r.Intn(3)])
-		d = append(d, "PackageComment")
+	if r.Intn(5) == 0 {
+		for i, n := 0, 1+r.Intn(3); i < n; i++ {
+			f.PackageComment([]string{"pkg doc", "", "a\nb", "Package p\tdoes   things.", "  indented"}[r.Intn(5)])
+		}
+		d = append(d, "PackageComment(s)")
 	}
 	if r.Intn(8) == 0 {
 		f.CanonicalPath = "can/on\"ical"
